@@ -33,7 +33,7 @@ CHECKS = {
     "C06": {
         "text": "Checksum arithmetic vs the spec for every byte string <= 12 bytes, additivity over padded concatenation, the head checksum-adjustment identity, round4/padding arithmetic, and FontRef::table_data on a symbolic 3-record directory.",
         "design_ref": "DESIGN.md §3 C06",
-        "note": "FontBuilder::build's own assembly (ordering, offsets, insertion-order independence, copy_missing_tables) is outside the claim: BTreeMap/Vec churn is out of CBMC's reach.",
+        "note": "FontBuilder::build's own assembly (ordering, offsets, insertion-order independence, copy_missing_tables) is outside the claim: BTreeMap/Vec churn is out of CBMC's reach. The directory search fields (SearchRange::compute) are NOT decided either: the function computes them in f64 with log2/powi, for which CBMC has no model (a seeded floor->round change there is missed).",
         "technique": "solver-based bounded model checking (Kani/CBMC SAT) of the compiled /repo code against a spec transcription",
     },
     "C08": {
